@@ -152,3 +152,137 @@ theorem shared_element_inter_pos (X Y : List ℕ) (i j : ℕ) (hi : i < X.length
   refine ⟨X[i], Finset.mem_inter.mpr ⟨?_, ?_⟩⟩
   · simp [List.getElem_mem]
   · rw [h]; simp [List.getElem_mem]
+
+/-! ## PQ / PB: the positional filter's counting argument (contracts/position_pair.py)
+SMT: pcnt(X, P, Y, k) = cnt (X.take P) Y k  (number of k' < k with Y[k'] among the first P elements of X);
+PQ  a right element among the first Q that equals a left element among the first P makes pcnt(X,P,Y,Q) >= 1;
+PB  X, Y strictly sorted, Y[i] = X[j], j < P:  |X n Y| <= pcnt(X,P,Y,i) + 1 + min(|X| - j - 1, |Y| - i - 1). -/
+
+/-- PQ: a right element among the first `Q` that equals a left element among the first `P`
+makes the prefix-match count positive -/
+theorem prefix_match_count_pos (X Y : List ℕ) (P Q i j : ℕ) (hi : i < Y.length) (hj : j < X.length)
+    (hiQ : i < Q) (hjP : j < P) (h : X[j] = Y[i]) : 1 ≤ cnt (X.take P) Y Q := by
+  apply cnt_pos (X.take P) Y Q i hiQ hi
+  rw [← h, List.mem_iff_getElem]
+  refine ⟨j, ?_, ?_⟩
+  · simp only [List.length_take]; omega
+  · rw [List.getElem_take]
+
+theorem filter_take_card_le (a b : List ℕ) (k : ℕ) :
+    ((b.take k).toFinset.filter (· ∈ a)).card ≤ cnt a b k := by
+  induction k with
+  | zero => simp [cnt]
+  | succ k ih =>
+    simp only [cnt]
+    by_cases hk : k < b.length
+    · rw [List.take_succ_eq_append_getElem hk, List.toFinset_append, Finset.filter_union]
+      simp only [hk, dite_true]
+      by_cases hm : b[k] ∈ a
+      · simp only [hm, if_true]
+        have h1 : (Finset.filter (· ∈ a) [b[k]].toFinset).card ≤ 1 := by
+          calc _ ≤ [b[k]].toFinset.card := Finset.card_filter_le _ _
+            _ ≤ 1 := by simp
+        have h2 := Finset.card_union_le (Finset.filter (· ∈ a) (b.take k).toFinset)
+          (Finset.filter (· ∈ a) [b[k]].toFinset)
+        omega
+      · have h0 : Finset.filter (· ∈ a) [b[k]].toFinset = ∅ := by
+          ext x
+          simp only [Finset.mem_filter, List.mem_toFinset, List.mem_singleton]
+          constructor
+          · rintro ⟨hx, hxa⟩
+            subst hx
+            exact absurd hxa hm
+          · intro hx
+            simp at hx
+        rw [h0]
+        simp only [hm, if_false, Finset.union_empty, Nat.add_zero]
+        exact ih
+    · have h0 : b.take (k + 1) = b.take k := by
+        rw [List.take_of_length_le (by omega), List.take_of_length_le (by omega)]
+      rw [h0]
+      simp only [hk, dite_false, Nat.add_zero]
+      exact ih
+
+theorem idx_lt_of_lt (L : List ℕ) (hL : L.Pairwise (· < ·)) (a b : ℕ) (ha : a < L.length)
+    (hb : b < L.length) (h : L[a] < L[b]) : a < b := by
+  by_contra hn
+  have hn' : b ≤ a := by omega
+  rcases Nat.lt_or_eq_of_le hn' with h1 | h1
+  · have := List.pairwise_iff_getElem.mp hL b a hb ha h1
+    omega
+  · subst h1
+    omega
+
+theorem card_gt_le (L : List ℕ) (hL : L.Pairwise (· < ·)) (k : ℕ) (hk : k < L.length)
+    (S : Finset ℕ) (hS : ∀ x ∈ S, x ∈ L ∧ L[k] < x) : S.card ≤ L.length - k - 1 := by
+  have hsub : S ⊆ (L.drop (k + 1)).toFinset := by
+    intro x hx
+    obtain ⟨hxL, hlt⟩ := hS x hx
+    obtain ⟨m, hm, hxm⟩ := List.getElem_of_mem hxL
+    have hkm : k < m := idx_lt_of_lt L hL k m hk hm (by rw [hxm]; exact hlt)
+    rw [List.mem_toFinset, List.mem_iff_getElem]
+    refine ⟨m - (k + 1), ?_, ?_⟩
+    · simp only [List.length_drop]; omega
+    · rw [List.getElem_drop, ← hxm]
+      congr 1
+      omega
+  calc S.card ≤ (L.drop (k + 1)).toFinset.card := Finset.card_le_card hsub
+    _ ≤ (L.drop (k + 1)).length := List.toFinset_card_le _
+    _ = L.length - k - 1 := by simp only [List.length_drop]; omega
+
+theorem mem_take_of_lt (L : List ℕ) (hL : L.Pairwise (· < ·)) (k : ℕ) (hk : k < L.length)
+    (x : ℕ) (hx : x ∈ L) (hlt : x < L[k]) (n : ℕ) (hkn : k ≤ n) : x ∈ L.take n := by
+  obtain ⟨m, hm, hxm⟩ := List.getElem_of_mem hx
+  have hmk : m < k := idx_lt_of_lt L hL m k hm hk (by rw [hxm]; exact hlt)
+  rw [List.mem_iff_getElem]
+  refine ⟨m, ?_, ?_⟩
+  · simp only [List.length_take]; omega
+  · rw [List.getElem_take]; exact hxm
+
+/-- PB, the positional bound: X, Y strictly sorted; Y[i] = X[j] with j < P.  Then the number of common
+elements is at most (number of i' < i with Y[i'] in the first P elements of X) + 1 +
+min (elements of X after j) (elements of Y after i). -/
+theorem position_bound (X Y : List ℕ) (hX : X.Pairwise (· < ·)) (hY : Y.Pairwise (· < ·))
+    (P i j : ℕ) (hi : i < Y.length) (hj : j < X.length) (hjP : j < P) (h : X[j] = Y[i]) :
+    (X.toFinset ∩ Y.toFinset).card ≤
+      cnt (X.take P) Y i + 1 + min (X.length - j - 1) (Y.length - i - 1) := by
+  set I := X.toFinset ∩ Y.toFinset with hI
+  have hmemI : ∀ x ∈ I, x ∈ X ∧ x ∈ Y := by
+    intro x hx
+    have := Finset.mem_inter.mp hx
+    simpa using this
+  have hsplit : I ⊆ (I.filter (· < Y[i])) ∪ {Y[i]} ∪ (I.filter (Y[i] < ·)) := by
+    intro x hx
+    simp only [Finset.mem_union, Finset.mem_filter, Finset.mem_singleton]
+    rcases lt_trichotomy x Y[i] with hlt | heq | hgt
+    · exact Or.inl (Or.inl ⟨hx, hlt⟩)
+    · exact Or.inl (Or.inr heq)
+    · exact Or.inr ⟨hx, hgt⟩
+  have hgtY : (I.filter (Y[i] < ·)).card ≤ Y.length - i - 1 := by
+    apply card_gt_le Y hY i hi
+    intro x hx
+    have hx' := Finset.mem_filter.mp hx
+    exact ⟨(hmemI x hx'.1).2, hx'.2⟩
+  have hgtX : (I.filter (Y[i] < ·)).card ≤ X.length - j - 1 := by
+    apply card_gt_le X hX j hj
+    intro x hx
+    have hx' := Finset.mem_filter.mp hx
+    exact ⟨(hmemI x hx'.1).1, by rw [h]; exact hx'.2⟩
+  have hlt : (I.filter (· < Y[i])).card ≤ cnt (X.take P) Y i := by
+    refine le_trans (Finset.card_le_card ?_) (filter_take_card_le (X.take P) Y i)
+    intro x hx
+    have hx' := Finset.mem_filter.mp hx
+    have hxX := (hmemI x hx'.1).1
+    have hxY := (hmemI x hx'.1).2
+    rw [Finset.mem_filter, List.mem_toFinset]
+    refine ⟨mem_take_of_lt Y hY i hi x hxY hx'.2 i le_rfl, ?_⟩
+    exact mem_take_of_lt X hX j hj x hxX (by rw [h]; exact hx'.2) P (by omega)
+  have hcard : I.card ≤ (I.filter (· < Y[i])).card + 1 + (I.filter (Y[i] < ·)).card := by
+    calc I.card ≤ ((I.filter (· < Y[i])) ∪ {Y[i]} ∪ (I.filter (Y[i] < ·))).card :=
+          Finset.card_le_card hsplit
+      _ ≤ ((I.filter (· < Y[i])) ∪ {Y[i]}).card + (I.filter (Y[i] < ·)).card :=
+          Finset.card_union_le _ _
+      _ ≤ (I.filter (· < Y[i])).card + ({Y[i]} : Finset ℕ).card + (I.filter (Y[i] < ·)).card :=
+          Nat.add_le_add_right (Finset.card_union_le _ _) _
+      _ = _ := by simp
+  omega
